@@ -17,6 +17,8 @@ import (
 // run, optionally edited, and run again under some flag set, from the project root or a
 // nested directory.
 type SkipCase struct {
+	// ProjDir names the directory holding the spokfile ("" = proj)
+	ProjDir string     `json:"proj_dir,omitempty"`
 	NTasks  int        `json:"ntasks"`
 	Deps    [][2]int   `json:"deps"`
 	FileDep []string   `json:"file_dep"` // per task: "" none, else a file or glob
@@ -38,6 +40,12 @@ var skipDeps = []string{"", "in.txt", "src/*.go", "**/*.go", "data.json", "*.txt
 var skipFlagSets = [][]string{nil, nil, {"--json"}, {"--quiet"}, {"--debug"}, {"--json", "--quiet"}}
 
 func genSkip(t *rapid.T) SkipCase {
+	c := genSkipBody(t)
+	c.ProjDir = genProjDir(t)
+	return c
+}
+
+func genSkipBody(t *rapid.T) SkipCase {
 	n := rapid.IntRange(1, 3).Draw(t, "ntasks")
 	c := SkipCase{NTasks: n}
 	for i := 0; i < n; i++ {
@@ -106,7 +114,7 @@ func skipMatches(dep, file string) bool {
 }
 
 func execSkip(id string, s *ev.Shard, b *sandbox.Box, c SkipCase) *rp.Fail {
-	if err := b.Reset(); err != nil {
+	if err := b.ResetAs(c.ProjDir); err != nil {
 		return &rp.Fail{Sig: "harness", Msg: err.Error()}
 	}
 	src := c.source()
